@@ -1,8 +1,357 @@
-//! placeholder (C10 programs) — replaced below
-use serde::{Deserialize, Serialize};
+//! C10 — HybridMutex / HybridRwLock under generated schedules.
+//!
+//! Programs: 2–4 threads, each a list of acquire operations (blocking, try, async via block_on,
+//! async-then-cancel).  The protected value carries plain (non-scheduled) occupancy counters;
+//! every critical section checks them on entry and yields a generated number of times while
+//! holding the guard.  Every guard is released, so the program terminates by specification:
+//! a deadlock is a lost wakeup / corrupted wait queue.
+
+use crate::sched::ByteSched;
+use fibre::sync::{HybridMutex, HybridRwLock};
 use proptest::prelude::*;
+use serde::{Deserialize, Serialize};
+use std::future::Future;
+use std::pin::Pin;
+use std::sync::atomic::{AtomicBool, AtomicI32, AtomicUsize, Ordering};
+use std::sync::{Arc, Mutex};
+use std::task::{Context, Poll, Wake, Waker};
 use vcore::{CaseReport, Failure};
+
+#[derive(Clone, Debug, Serialize, Deserialize, PartialEq)]
+pub enum LOp {
+  /// blocking exclusive acquire (mutex lock / rwlock write), hold for n yields
+  Lock(u8),
+  TryLock(u8),
+  /// async exclusive acquire driven to completion
+  LockAsync(u8),
+  /// async exclusive acquire: poll once, yield n times, poll again (if `repoll`), then drop it
+  /// whatever its state (a granted guard is released normally)
+  LockAsyncCancel(u8, bool),
+  /// shared forms (rwlock only; on a mutex they fall back to the exclusive form)
+  Read(u8),
+  TryRead(u8),
+  ReadAsync(u8),
+  ReadAsyncCancel(u8, bool),
+  Yield,
+}
+
 #[derive(Clone, Debug, Serialize, Deserialize)]
-pub struct Scenario { pub seed: u64 }
-pub fn scenario_strategy(_s: usize) -> BoxedStrategy<Scenario> { any::<u64>().prop_map(|seed| Scenario{seed}).boxed() }
-pub fn execute(_s: &Scenario) -> Result<CaseReport, Failure> { Ok(CaseReport::new()) }
+pub struct Scenario {
+  pub rwlock: bool,
+  pub threads: Vec<Vec<LOp>>,
+  pub seed: u64,
+  pub schedules: usize,
+}
+
+pub fn scenario_strategy(schedules: usize) -> BoxedStrategy<Scenario> {
+  let hold = 0u8..3;
+  let op = prop_oneof![
+    6 => hold.clone().prop_map(LOp::Lock),
+    3 => hold.clone().prop_map(LOp::TryLock),
+    4 => hold.clone().prop_map(LOp::LockAsync),
+    4 => (hold.clone(), any::<bool>()).prop_map(|(h, r)| LOp::LockAsyncCancel(h, r)),
+    5 => hold.clone().prop_map(LOp::Read),
+    2 => hold.clone().prop_map(LOp::TryRead),
+    3 => hold.clone().prop_map(LOp::ReadAsync),
+    3 => (hold, any::<bool>()).prop_map(|(h, r)| LOp::ReadAsyncCancel(h, r)),
+    1 => Just(LOp::Yield),
+  ];
+  (any::<bool>(), proptest::collection::vec(proptest::collection::vec(op, 1..6), 2..=4), any::<u64>())
+    .prop_map(move |(rwlock, threads, seed)| Scenario { rwlock, threads, seed, schedules })
+    .boxed()
+}
+
+#[derive(Default)]
+struct Tracker {
+  writers: AtomicI32,
+  readers: AtomicI32,
+}
+
+#[derive(Default)]
+struct Shared {
+  failure: Mutex<Option<Failure>>,
+  attempting: AtomicUsize,
+  holders: AtomicUsize,
+  contended: AtomicBool,
+  cancelled_pending: AtomicBool,
+}
+
+impl Shared {
+  fn fail(&self, sig: &str, msg: String) {
+    let mut g = self.failure.lock().unwrap();
+    if g.is_none() {
+      *g = Some(Failure::new("C10", sig, msg));
+    }
+  }
+  fn failed(&self) -> bool {
+    self.failure.lock().unwrap().is_some()
+  }
+  fn enter_attempt(&self) {
+    if self.attempting.fetch_add(1, Ordering::SeqCst) > 0 || self.holders.load(Ordering::SeqCst) > 0 {
+      self.contended.store(true, Ordering::SeqCst);
+    }
+  }
+  fn leave_attempt(&self) {
+    self.attempting.fetch_sub(1, Ordering::SeqCst);
+  }
+}
+
+fn kind(rw: bool) -> &'static str {
+  if rw {
+    "rwlock"
+  } else {
+    "mutex"
+  }
+}
+
+/// C10: "a mutex or write guard never coexists with any other guard of the same lock"
+fn exclusive_section(sh: &Shared, t: &Tracker, rw: bool, form: &str, hold: u8) {
+  sh.holders.fetch_add(1, Ordering::SeqCst);
+  let w = t.writers.fetch_add(1, Ordering::SeqCst);
+  let r = t.readers.load(Ordering::SeqCst);
+  if w != 0 || r != 0 {
+    sh.fail(&format!("E3/{}/{}/mutual_exclusion", kind(rw), form), format!("exclusive guard obtained while {w} other exclusive guard(s) and {r} read guard(s) are held"));
+  }
+  for _ in 0..hold {
+    shuttle::thread::yield_now();
+  }
+  sh.holders.fetch_sub(1, Ordering::SeqCst);
+  let w2 = t.writers.fetch_sub(1, Ordering::SeqCst);
+  let r2 = t.readers.load(Ordering::SeqCst);
+  if w2 != 1 || r2 != 0 {
+    sh.fail(&format!("E3/{}/{}/mutual_exclusion", kind(rw), form), format!("while an exclusive guard was held the lock was also granted to others (writers {w2}, readers {r2})"));
+  }
+}
+
+/// C10: "while read guards may coexist" — but never with a write guard
+fn shared_section(sh: &Shared, t: &Tracker, form: &str, hold: u8) {
+  sh.holders.fetch_add(1, Ordering::SeqCst);
+  t.readers.fetch_add(1, Ordering::SeqCst);
+  let w = t.writers.load(Ordering::SeqCst);
+  if w != 0 {
+    sh.fail(&format!("E3/rwlock/{}/mutual_exclusion", form), format!("read guard obtained while {w} write guard(s) are held"));
+  }
+  for _ in 0..hold {
+    shuttle::thread::yield_now();
+  }
+  sh.holders.fetch_sub(1, Ordering::SeqCst);
+  let w2 = t.writers.load(Ordering::SeqCst);
+  t.readers.fetch_sub(1, Ordering::SeqCst);
+  if w2 != 0 {
+    sh.fail(&format!("E3/rwlock/{}/mutual_exclusion", form), format!("a write guard was granted while a read guard was held (writers {w2})"));
+  }
+}
+
+struct Flag(AtomicBool);
+impl Wake for Flag {
+  fn wake(self: Arc<Self>) {
+    self.0.store(true, Ordering::SeqCst);
+  }
+}
+
+/// poll once / yield / optionally poll again / drop.  Returns the guard if it was granted.
+fn poll_cancel<'a, G>(sh: &Shared, mut fut: Pin<Box<dyn Future<Output = G> + 'a>>, yields: u8, repoll: bool) -> Option<G> {
+  let flag = Arc::new(Flag(AtomicBool::new(false)));
+  let waker = Waker::from(flag.clone());
+  let mut cx = Context::from_waker(&waker);
+  if let Poll::Ready(g) = fut.as_mut().poll(&mut cx) {
+    return Some(g);
+  }
+  for _ in 0..yields {
+    shuttle::thread::yield_now();
+  }
+  if repoll {
+    if let Poll::Ready(g) = fut.as_mut().poll(&mut cx) {
+      return Some(g);
+    }
+  }
+  // cancelled while pending (possibly already woken): "dropping a pending lock future neither
+  // corrupts the wait queue nor loses the wakeup owed to the next waiter" — the other threads'
+  // acquisitions still have to terminate (deadlock oracle)
+  sh.cancelled_pending.store(true, Ordering::SeqCst);
+  drop(fut);
+  None
+}
+
+fn thread_main(sh: Arc<Shared>, m: Arc<HybridMutex<Tracker>>, rw: Arc<HybridRwLock<Tracker>>, is_rw: bool, ops: Vec<LOp>) {
+  for op in ops {
+    if sh.failed() {
+      return;
+    }
+    match op {
+      LOp::Yield => shuttle::thread::yield_now(),
+      LOp::Lock(h) => {
+        if is_rw {
+          sh.enter_attempt();
+          let g = rw.write();
+          sh.leave_attempt();
+          exclusive_section(&sh, &g, true, "write", h);
+        } else {
+          sh.enter_attempt();
+          let g = m.lock();
+          sh.leave_attempt();
+          exclusive_section(&sh, &g, false, "lock", h);
+        }
+      }
+      LOp::TryLock(h) => {
+        if is_rw {
+          if let Some(g) = rw.try_write() {
+            exclusive_section(&sh, &g, true, "try_write", h);
+          } else {
+            sh.contended.store(true, Ordering::SeqCst);
+          }
+        } else if let Some(g) = m.try_lock() {
+          exclusive_section(&sh, &g, false, "try_lock", h);
+        } else {
+          sh.contended.store(true, Ordering::SeqCst);
+        }
+      }
+      LOp::LockAsync(h) => {
+        if is_rw {
+          sh.enter_attempt();
+          let g = shuttle::future::block_on(rw.write_async());
+          sh.leave_attempt();
+          exclusive_section(&sh, &g, true, "write_async", h);
+        } else {
+          sh.enter_attempt();
+          let g = shuttle::future::block_on(m.lock_async());
+          sh.leave_attempt();
+          exclusive_section(&sh, &g, false, "lock_async", h);
+        }
+      }
+      LOp::LockAsyncCancel(h, repoll) => {
+        if is_rw {
+          if let Some(g) = poll_cancel(&sh, Box::pin(rw.write_async()), h, repoll) {
+            exclusive_section(&sh, &g, true, "write_async", 0);
+          }
+        } else if let Some(g) = poll_cancel(&sh, Box::pin(m.lock_async()), h, repoll) {
+          exclusive_section(&sh, &g, false, "lock_async", 0);
+        }
+      }
+      LOp::Read(h) => {
+        if is_rw {
+          sh.enter_attempt();
+          let g = rw.read();
+          sh.leave_attempt();
+          shared_section(&sh, &g, "read", h);
+        } else {
+          let g = m.lock();
+          exclusive_section(&sh, &g, false, "lock", h);
+        }
+      }
+      LOp::TryRead(h) => {
+        if is_rw {
+          if let Some(g) = rw.try_read() {
+            shared_section(&sh, &g, "try_read", h);
+          } else {
+            sh.contended.store(true, Ordering::SeqCst);
+          }
+        } else if let Some(g) = m.try_lock() {
+          exclusive_section(&sh, &g, false, "try_lock", h);
+        }
+      }
+      LOp::ReadAsync(h) => {
+        if is_rw {
+          let g = shuttle::future::block_on(rw.read_async());
+          shared_section(&sh, &g, "read_async", h);
+        } else {
+          let g = shuttle::future::block_on(m.lock_async());
+          exclusive_section(&sh, &g, false, "lock_async", h);
+        }
+      }
+      LOp::ReadAsyncCancel(h, repoll) => {
+        if is_rw {
+          if let Some(g) = poll_cancel(&sh, Box::pin(rw.read_async()), h, repoll) {
+            shared_section(&sh, &g, "read_async", 0);
+          }
+        } else if let Some(g) = poll_cancel(&sh, Box::pin(m.lock_async()), h, repoll) {
+          exclusive_section(&sh, &g, false, "lock_async", 0);
+        }
+      }
+    }
+  }
+}
+
+pub fn execute(s: &Scenario) -> Result<CaseReport, Failure> {
+  use std::panic::{catch_unwind, AssertUnwindSafe};
+  let mut rep = CaseReport::new();
+  rep.executions = 0;
+  rep.class(if s.rwlock { "rwlock" } else { "mutex" });
+  let seeds: Vec<u64> = match std::env::var("VERIF_ONE_SEED").ok().and_then(|v| v.parse::<u64>().ok()) {
+    Some(one) => vec![one],
+    None => (0..s.schedules.max(1)).map(|i| vcore::mix(s.seed, i as u64)).collect(),
+  };
+  let states: Arc<Mutex<Vec<(u64, Arc<Shared>)>>> = Arc::new(Mutex::new(Vec::new()));
+  let stop = Arc::new(AtomicBool::new(false));
+  let mut config = shuttle::Config::new();
+  config.max_steps = shuttle::MaxSteps::FailAfter(100_000);
+  config.failure_persistence = shuttle::FailurePersistence::None;
+  config.silence_warnings = true;
+  config.stack_size = 0x20000;
+  let runner = shuttle::Runner::new(ByteSched::new(seeds.clone()), config);
+  let sc = s.clone();
+  let states2 = states.clone();
+  let stop2 = stop.clone();
+  let seeds2 = seeds.clone();
+  let r = catch_unwind(AssertUnwindSafe(move || {
+    runner.run(move || {
+      if stop2.load(Ordering::Relaxed) {
+        return;
+      }
+      let sh = Arc::new(Shared::default());
+      {
+        let mut g = states2.lock().unwrap();
+        let i = g.len();
+        g.push((seeds2[i.min(seeds2.len() - 1)], sh.clone()));
+      }
+      let m = Arc::new(HybridMutex::new(Tracker::default()));
+      let rw = Arc::new(HybridRwLock::new(Tracker::default()));
+      let mut joins = Vec::new();
+      for ops in sc.threads.iter().cloned() {
+        let (sh, m, rw, is_rw) = (sh.clone(), m.clone(), rw.clone(), sc.rwlock);
+        joins.push(shuttle::thread::spawn(move || thread_main(sh, m, rw, is_rw, ops)));
+      }
+      for j in joins {
+        let _ = j.join();
+      }
+      if sh.failed() {
+        stop2.store(true, Ordering::Relaxed);
+      }
+    });
+  }));
+  let states = std::mem::take(&mut *states.lock().unwrap());
+  let n = states.len();
+  let mut any_contended = false;
+  for (i, (seed, sh)) in states.into_iter().enumerate() {
+    rep.executions += 1;
+    if let Some(mut f) = sh.failure.lock().unwrap().take() {
+      f.message = format!("schedule seed {seed}: {}", f.message);
+      return Err(f);
+    }
+    if i + 1 == n {
+      if let Err(p) = &r {
+        let msg = crate::panic_msg(p);
+        if msg.starts_with("deadlock!") {
+          // C10: "Blocking and async acquirers both eventually acquire after the lock is
+          // released ... dropping a pending lock future neither corrupts the wait queue nor
+          // loses the wakeup owed to the next waiter"
+          let c = if sh.cancelled_pending.load(Ordering::SeqCst) { "deadlock_after_cancelled_future" } else { "deadlock" };
+          return Err(Failure::new("C10", format!("E3/{}/{}", kind(s.rwlock), c), format!("schedule seed {seed}: every unfinished thread is blocked although every guard is released by its holder — {}", msg.chars().take(200).collect::<String>())));
+        } else if msg.starts_with("exceeded max_steps") {
+          rep.inconclusive += 1;
+        } else {
+          return Err(Failure::new("C10", format!("E3/{}/panic/{}", kind(s.rwlock), crate::panic_site(&msg)), format!("schedule seed {seed}: panic inside the lock: {msg}")));
+        }
+      }
+    }
+    any_contended |= sh.contended.load(Ordering::SeqCst);
+    if sh.cancelled_pending.load(Ordering::SeqCst) {
+      rep.class("cancelled_pending_lock_future");
+    }
+  }
+  if any_contended {
+    rep.class("contended");
+  }
+  rep.nontrivial = any_contended;
+  Ok(rep)
+}
